@@ -199,6 +199,8 @@ pub struct Exec {
     pub ledger: BTreeMap<ChitchatId, Option<Vec<LedgerWrite>>>,
     /// copies (slot, member) that went through the KF-1 pattern (or were fed by one that did)
     pub tainted: BTreeSet<(u64, ChitchatId)>,
+    /// loopback UDP fixture (created on first use, re-created by `case`)
+    pub udp: Option<crate::udp_suite::UdpFixture>,
 }
 
 pub fn to_pdelta(delta: &verif::Delta) -> PDelta {
@@ -266,7 +268,7 @@ impl Exec {
             let _g = rt.enter();
             Instant::now()
         };
-        Exec { rt, start, nodes: BTreeMap::new(), soup: Vec::new(), poisoned: false, case_id: String::new(), hits: Vec::new(), tie_skips: 0, ledger: BTreeMap::new(), tainted: BTreeSet::new() }
+        Exec { rt, start, nodes: BTreeMap::new(), soup: Vec::new(), poisoned: false, case_id: String::new(), hits: Vec::new(), tie_skips: 0, ledger: BTreeMap::new(), tainted: BTreeSet::new(), udp: None }
     }
 
     pub fn now_ticks(&self) -> u64 {
@@ -953,6 +955,7 @@ impl Exec {
             self.soup.clear();
             self.ledger.clear();
             self.tainted.clear();
+            self.udp = None;
             self.poisoned = false;
             let _g = self.rt.enter();
             self.start = Instant::now();
@@ -1293,7 +1296,28 @@ impl Exec {
                     _ => return None,
                 };
                 let mut rng = verif::ScriptedRng::new(words);
+                let (peers0, live0, dead0, seeds0) = (peers.clone(), live.clone(), dead.clone(), seeds.clone());
                 let r = catch_unwind(AssertUnwindSafe(|| verif::select_nodes_for_gossip(&mut rng, peers, live, dead, seeds)));
+                if let Ok((nodes, d, sd)) = &r {
+                    // C17, stated on the result alone
+                    let pool = if live0.is_empty() { &peers0 } else { &live0 };
+                    let distinct: HashSet<&SocketAddr> = nodes.iter().collect();
+                    let mut why: Option<String> = None;
+                    if nodes.len() > 3 || distinct.len() != nodes.len() || nodes.iter().any(|n| !pool.contains(n)) {
+                        why = Some(format!("peers {nodes:?} are not at most three distinct members of the pool {pool:?}"));
+                    } else if d.map(|x| !dead0.contains(&x)).unwrap_or(false) {
+                        why = Some(format!("dead target {d:?} is not in the dead set"));
+                    } else if sd.map(|x| !seeds0.contains(&x)).unwrap_or(false) {
+                        why = Some(format!("seed target {sd:?} is not in the seed set"));
+                    } else if live0.is_empty() && !seeds0.is_empty() && sd.is_none() && !nodes.iter().any(|n| seeds0.contains(n)) {
+                        why = Some(format!("no live peer, {} dead peer(s), {} seed(s): no seed was contacted (peers {nodes:?})", dead0.len(), seeds0.len()));
+                    } else if dead0.len() > live0.len() && d.is_none() {
+                        why = Some(format!("{} dead peers outnumber {} live ones but no dead peer was contacted", dead0.len(), live0.len()));
+                    }
+                    if let Some(w) = why {
+                        self.monitor_hit("C17", "selection", &w);
+                    }
+                }
                 let back = |x: SocketAddr| match x {
                     SocketAddr::V4(v) => v.ip().octets()[3] as u64,
                     _ => 999,
@@ -1322,6 +1346,99 @@ impl Exec {
                         let d = take_panic();
                         self.monitor_hit("C17", "select-abort", &d[..d.len().min(200)]);
                         Some(("(nop)".to_string(), p_panic(&d)))
+                    }
+                }
+            }
+            "usend" => {
+                // (usend msg peer|unreach): the real UdpSocket sends; a raw socket observes the wire
+                use chitchat::Serializable;
+                use crate::udp_suite::SendObs;
+                let pm = r_msg(a.first()?)?;
+                let dest = a.get(1)?.atom()?.to_string();
+                if self.udp.is_none() {
+                    self.udp = crate::udp_suite::UdpFixture::new();
+                }
+                let msg = from_pmsg(&pm);
+                let expected = catch_unwind(AssertUnwindSafe(|| msg.serialize_to_vec())).ok();
+                let fx = self.udp.as_mut()?;
+                let to = if dest == "peer" { fx.peer_addr } else { fx.unreachable_addr() };
+                verif::start_flush_log();
+                let obs = catch_unwind(AssertUnwindSafe(|| fx.send(to, msg)));
+                let flushes = verif::take_flush_log();
+                let l = plist("usend", [p_msg(&pm), dest.clone(), p_oracle(&flushes)]);
+                match obs {
+                    Err(_) => {
+                        self.udp = None;
+                        Some((l, p_panic(&take_panic())))
+                    }
+                    Ok(SendObs::Timeout) => Some((l, "(udp-timeout)".to_string())),
+                    Ok(SendObs::Returned { ok, received }) => {
+                        // C19, stated on the wire: a successful send puts exactly the serialized
+                        // message on the wire, a failed one nothing; and a send fails only for a
+                        // reason of its own (oversized datagram, unreachable destination)
+                        if let Some(exp) = &expected {
+                            let sendable = dest == "peer" && exp.len() <= verif::MAX_UDP_DATAGRAM_PAYLOAD_SIZE;
+                            if ok && (received.len() != 1 || &received[0] != exp) {
+                                self.monitor_hit("C19", "udp-datagram", &format!(
+                                    "send returned Ok but the peer received {} datagram(s) of {:?} bytes instead of the {}-byte serialization of the message",
+                                    received.len(), received.iter().map(|d| d.len()).collect::<Vec<_>>(), exp.len()));
+                            } else if !ok && sendable {
+                                self.monitor_hit("C19", "udp-send-stalled", &format!(
+                                    "a {}-byte message to a reachable peer could not be sent: an earlier failed send still affects this one", exp.len()));
+                            } else if !ok && !received.is_empty() {
+                                self.monitor_hit("C19", "udp-datagram", "send returned Err but a datagram reached the peer");
+                            }
+                        }
+                        let o = if ok && received.len() == 1 {
+                            plist("sent", [hex(&received[0])])
+                        } else if !ok && received.is_empty() {
+                            "(fail)".to_string()
+                        } else {
+                            plist("anomaly", [ok.to_string(), plist("", received.iter().map(|d| hex(d)))])
+                        };
+                        Some((l, o))
+                    }
+                }
+            }
+            "urecv" => {
+                // (urecv hex): a raw datagram is delivered to the real UdpSocket
+                use chitchat::Serializable;
+                let bytes = a.first()?.bytes()?;
+                if self.udp.is_none() {
+                    self.udp = crate::udp_suite::UdpFixture::new();
+                }
+                let sentinel_msg = ChitchatMessage::Syn {
+                    cluster_id: crate::udp_suite::SENTINEL_CLUSTER.to_string(),
+                    digest: verif::digest_from_parts(vec![]),
+                };
+                let sentinel = sentinel_msg.serialize_to_vec();
+                let fx = self.udp.as_mut()?;
+                verif::start_flush_log();
+                let got = catch_unwind(AssertUnwindSafe(|| {
+                    fx.recv(&bytes, &sentinel, |m| matches!(m, ChitchatMessage::Syn { cluster_id, .. } if cluster_id == crate::udp_suite::SENTINEL_CLUSTER))
+                }));
+                let flushes = verif::take_flush_log();
+                let l = plist("urecv", [hex(&bytes), p_oracle(&flushes)]);
+                match got {
+                    Err(_) => {
+                        self.udp = None;
+                        let d = take_panic();
+                        self.monitor_hit("C19", "udp-recv-abort", &format!("receiving a {}-byte datagram aborted: {}", bytes.len(), &d[..d.len().min(160)]));
+                        self.monitor_hit("C09", "udp-recv-abort", &format!("receiving a {}-byte datagram aborted: {}", bytes.len(), &d[..d.len().min(160)]));
+                        Some((l, p_panic(&d)))
+                    }
+                    Ok(None) => {
+                        self.udp = None;
+                        self.monitor_hit("C19", "udp-recv-stalled", &format!("after a {}-byte datagram the socket no longer returned the next valid message", bytes.len()));
+                        Some((l, "(udp-timeout)".to_string()))
+                    }
+                    Ok(Some(msgs)) => {
+                        let o = match msgs.len() {
+                            0 => "(skip)".to_string(),
+                            1 => plist("got", [p_msg(&to_pmsg(&msgs[0]))]),
+                            n => plist("anomaly", [n.to_string()]),
+                        };
+                        Some((l, o))
                     }
                 }
             }
@@ -1834,10 +1951,17 @@ impl Exec {
         let mut mtus: Vec<usize> = vec![100];
         let mut acc = 4usize;
         for l in &lens {
+            // budgets strictly between two truncation points: room for a 9-byte `SetMaxVersion`
+            // op but not for the next op, and one byte short of the next op
+            if *l > 9 {
+                mtus.push((acc + 9).max(100));
+                mtus.push((acc + l - 1).max(100));
+            }
             acc += l;
             mtus.push(acc.max(100));
         }
         mtus.push(60_000);
+        mtus.sort();
         mtus.dedup();
         let mut out = Vec::new();
         let rcopy_s = p_pcopy(&rcopy);
@@ -1862,6 +1986,29 @@ impl Exec {
                         self.monitor_hit("C14", "refused", &format!(
                             "the delta computed from the receiver's own digest (receiver gc {}, max {}; sender gc {}, max {}; from {}, {} key-values, max {}) was refused",
                             rcopy.last_gc, rcopy.max_version, scopy.last_gc, scopy.max_version, nd.from_version_excluded, nd.key_values.len(), nd.max_version));
+                    }
+                    // C02 on the pair: whatever range of versions the receiver now claims to
+                    // have caught up on, it holds every write the sender holds in that range
+                    // (tombstones at or below the receiver's new watermark excepted).
+                    if o.starts_with("(ok") && !o.starts_with("(ok reject") && nd.chitchat_id == x {
+                        if let Some(after) = self.snapshot_copy(r, &x) {
+                            let lo = if nd.from_version_excluded == 0 && after.last_gc > rcopy.last_gc { 0 } else { rcopy.max_version };
+                            for (k, v, ver, st, _) in &scopy.kvs {
+                                if *ver <= lo || *ver > after.max_version {
+                                    continue;
+                                }
+                                if *st != 0 && *ver <= after.last_gc {
+                                    continue;
+                                }
+                                let held = after.kvs.iter().any(|e| &e.0 == k && &e.1 == v && e.2 == *ver && e.3 == *st);
+                                if !held {
+                                    self.monitor_hit("C02", "pair-skipped-write", &format!(
+                                        "receiver moved from (gc {}, max {}) to (gc {}, max {}) with budget {} but lacks the sender's write {:?} at version {} (status {})",
+                                        rcopy.last_gc, rcopy.max_version, after.last_gc, after.max_version, mtu, k, ver, st));
+                                    break;
+                                }
+                            }
+                        }
                     }
                     out.push((l, o));
                     if self.poisoned {
@@ -1936,6 +2083,20 @@ impl Exec {
         let cb_before = ctx.callbacks.load(Ordering::SeqCst);
         let gc_before: BTreeMap<ChitchatId, u64> =
             ctx.cc.node_states().iter().map(|(id, ns)| (id.clone(), ns.last_gc_version())).collect();
+        // C15 (replicated writes): versions held before, for exactly the keys the delta mentions
+        let mut held_before: Vec<(usize, usize, Option<u64>)> = Vec::new();
+        let in_delta = match pm {
+            PMsg::SynAck { delta, .. } | PMsg::Ack { delta } => Some(delta),
+            _ => None,
+        };
+        if let Some(delta) = in_delta {
+            for (i, nd) in delta.node_deltas.iter().enumerate() {
+                let ns = ctx.cc.node_state(&nd.chitchat_id);
+                for (j, kv) in nd.key_values.iter().enumerate() {
+                    held_before.push((i, j, ns.and_then(|ns| ns.get_versioned(&kv.key)).map(|vv| vv.version)));
+                }
+            }
+        }
         verif::start_flush_log();
         verif::start_shuffle_log();
         let r = catch_unwind(AssertUnwindSafe(|| verif::cc_process_message(&mut ctx.cc, msg)));
@@ -1964,6 +2125,36 @@ impl Exec {
                     None
                 };
                 let evs = Self::take_events(ctx);
+                // C15 (replicated writes): every key-value of the delta that the copy now holds,
+                // non-deleted, and did not hold at that version or above before, was learned
+                // through gossip by this message: the subscriptions must have seen it.
+                let mut c15: Option<String> = None;
+                if let Some(delta) = in_delta {
+                    let mut pool: Vec<&(ChitchatId, String, String)> = evs.iter().collect();
+                    for (i, j, before) in &held_before {
+                        let nd = &delta.node_deltas[*i];
+                        let kv = &nd.key_values[*j];
+                        if kv.status == 1 || before.map(|b| b >= kv.version).unwrap_or(false) {
+                            continue;
+                        }
+                        let Some(ns) = ctx.cc.node_state(&nd.chitchat_id) else { continue };
+                        let now_held = ns.get_versioned(&kv.key).map(|vv| vv.version == kv.version && vv.value == kv.value).unwrap_or(false);
+                        if !now_held {
+                            continue;
+                        }
+                        match pool.iter().position(|e| e.0 == nd.chitchat_id && e.1 == kv.key && e.2 == kv.value) {
+                            Some(pos) => {
+                                pool.swap_remove(pos);
+                            }
+                            None => {
+                                c15 = Some(format!(
+                                    "member {:?}: key {:?} = {:?} (version {}) was learned through this message but the catch-all subscription was not called",
+                                    nd.chitchat_id.node_id, kv.key, kv.value, kv.version));
+                                break;
+                            }
+                        }
+                    }
+                }
                 let reply_p = reply.as_ref().map(to_pmsg);
                 // size of the reply on the wire (this is what the UDP transport does with it)
                 let mut oversize = None;
@@ -1997,6 +2188,9 @@ impl Exec {
                         self.p_evc(slot, &evs),
                     ],
                 );
+                if let Some(d) = c15 {
+                    self.monitor_hit("C15", "missed-gossip-event", &d);
+                }
                 if let Some(d) = c20 {
                     self.monitor_hit("C20", "callback-count", &d);
                 }
